@@ -466,14 +466,22 @@ pub fn run(a: &Args) -> Batch {
             nontrivial: doc.iter().any(|b| !b.attrs.is_empty()),
         });
     }
+    // ---------- typed elements, KyGananciasSolares.txt, NewBDL_O.tbl (differential tests, no theorem) ----------
+    let nt = if a.thorough { 2000 } else { 120 };
+    std::fs::create_dir_all(&a.out).unwrap();
+    let mut rt = r.fork(77);
+    let typed_stats = crate::p18b::typed_elements(&mut rt, nt, &mut impl_findings);
+    let kyg_stats = crate::p18b::kyg_files(&mut rt, nt, &mut impl_findings);
+    let tbl_stats = crate::p18b::tbl_files(&mut rt, nt, &a.out, &mut impl_findings);
     Batch {
         imports: "From Coq Require Import ZArith NArith QArith List String.\nFrom CTE Require Import Base.Num Model.Bdl Model.BdlCase.\nLocal Open Scope string_scope.".into(),
         case_ty: "c18case".into(),
         agree: "agree_C18".into(),
         cases,
         impl_findings,
-        rule: "real files = BDL text of the shipped .ctehexml projects and legacy .cte files (all in the thorough tier, a seeded slice of 8 of those under 150 kB in the quick tier), as shipped and re-printed from their parsed blocks in another layout (indentation, spacing around '=', CRLF, comment lines); printed documents = 1..40 blocks of any of the 53 block types with 0..8 attributes: numbers (integers, decimals, signs, leading/trailing dot, lower and upper case exponents, f32 extremes), bare words, quoted strings (empty, with '=', '$', parentheses, numeric content), one-line and multi-line lists (closing parenthesis on the last item or on its own line), under random indentation, trailing blanks, blank and comment lines, CRLF, and the legacy LIDER preamble; names are identifiers that are not numeric literals; non-trivial = some block has attributes".into(),
+        rule: "real files = BDL text of the shipped .ctehexml projects and legacy .cte files (all in the thorough tier, a seeded slice of 8 of those under 150 kB in the quick tier), as shipped and re-printed from their parsed blocks in another layout (indentation, spacing around '=', CRLF, comment lines); printed documents = 1..40 blocks of any of the 53 block types with 0..8 attributes: numbers (integers, decimals, signs, leading/trailing dot, lower and upper case exponents, f32 extremes), bare words, quoted strings (empty, with '=', '$', parentheses, numeric content), one-line and multi-line lists (closing parenthesis on the last item or on its own line), under random indentation, trailing blanks, blank and comment lines, CRLF, and the legacy LIDER preamble; names are identifiers that are not numeric literals; non-trivial = some block has attributes. Besides the Coq cases, three differential tests in Rust (no theorem): MATERIAL / GLASS-TYPE / NAME-FRAME / BUILDING-SHADE / WINDOW blocks with random values, optional attributes (legacy defaults) and attribute order through bdl::Data::new; KyGananciasSolares.txt in both column layouts with either decimal separator; NewBDL_O.tbl files - every written value must come back bit-exactly".into(),
         stats: json!({"real_files": nreal, "real_files_reprinted": nreprinted, "printed_documents": a.n, "printed_blocks": nblocks, "printed_attributes": nattrs,
-                       "attribute_kinds": {"number": kinds[0], "word": kinds[1], "quoted": kinds[2], "list": kinds[3]}}),
+                       "attribute_kinds": {"number": kinds[0], "word": kinds[1], "quoted": kinds[2], "list": kinds[3]},
+                       "typed_elements": typed_stats, "kyg": kyg_stats, "tbl": tbl_stats}),
     }
 }
